@@ -203,4 +203,46 @@ theorem session_is_connection_history (vr : Variant) (k : Nat) (ops : List (SOp 
     simp only [srun, flatMap_cons]
     rw [ih, sstep_conn, run_append]
 
+/-- **give_up_touches_own_ticket_only.**  Requests are identified by their ticket (the position
+    of the future `send_request` / `send_batch` handed out), never by their value: the model's
+    requests do not even carry a method or arguments, so any two of them are "equal requests".
+    A caller giving up — awaiting its response (`giveUp t`) or parked in `write`
+    (`dropParked q`) — removes no entry from the request table, draws and returns no id, and
+    leaves the future of every other ticket exactly as it is; the only thing that changes is the
+    future of ticket `t` itself (cancelled if it was pending).  A tree that, on a give-up,
+    deletes "the entry whose request equals mine" (seeded change C01-r4m2) cannot satisfy this:
+    the entry of an equal, earlier, still awaited request would go. -/
+theorem give_up_touches_own_ticket_only (vr : Variant) (k : Nat) (s : Sess V) (t q : Nat) :
+    (sstep vr k s (.giveUp t)).conn.out = s.conn.out ∧
+    (sstep vr k s (.giveUp t)).conn.next = s.conn.next ∧
+    (∀ u, u ≠ t → (sstep vr k s (.giveUp t)).conn.futs[u]? = s.conn.futs[u]?) ∧
+    (sstep vr k s (.giveUp t)).conn.futs[t]? = s.conn.futs[t]?.map cancelFut ∧
+    (sstep vr k s (.dropParked q)).conn = s.conn := by
+  refine ⟨rfl, rfl, ?_, ?_, rfl⟩
+  · intro u hu
+    show (s.conn.futs.modify t cancelFut)[u]? = _
+    rw [getElem?_modify]
+    simp [Ne.symm hu]
+  · show (s.conn.futs.modify t cancelFut)[t]? = _
+    rw [getElem?_modify]
+    simp
+
+/-- non-vacuity (the history of seeded change C01-r4m2): two callers make the same request (ids
+    0 and 1), the LATER one gives up, then the peer answers id 0 and id 1: ticket 0 completes with
+    exactly the value sent under id 0, the late answer to id 1 is accepted too (its entry was
+    still there) and changes nothing; the same with three callers, the middle one giving up
+    while parked. -/
+example :
+    let r := fun (n : Int) (v : Nat) => (⟨some (.int n), true, .val v⟩ : RawResp Nat)
+    (srun (repaired true true) 1 (Sess.init (V := Nat) (some .v2) 0)
+      [.call none true, .call none true, .giveUp 1, .recv (.recvSingle .v2 (r 0 5)),
+       .recv (.recvSingle .v2 (r 1 6))]).conn.futs = [.result 5, .cancelled] ∧
+    (srun (repaired true true) 1 (Sess.init (V := Nat) (some .v2) 0)
+      [.call none true, .call none true, .giveUp 1]).conn.out.map Prod.snd = [0, 1] ∧
+    (srun (repaired true true) 1 (Sess.init (V := Nat) (some .v2) 0)
+      [.pause, .call none true, .call none true, .call none true, .dropParked 1, .resume,
+       .recv (.recvSingle .v2 (r 0 5)), .recv (.recvSingle .v2 (r 2 7))]).conn.futs
+      = [.result 5, .pending, .result 7] := by
+  decide
+
 end Aiorpcx.C01
